@@ -1,7 +1,8 @@
 """C56 — the ILA captures exactly the samples following a trigger.
 
 DUT: two real `IntegratedLogicAnalyzer`s (luna/gateware/debug/ila.py) with different (sample_depth 1..70,
-samples_pretrigger 0..4) configurations inside a trivial wrapper; both observe the same 1-3 input signals
+samples_pretrigger 0..4; after the coverage audit also depth 71..300, pre-trigger 5..12 and the constructor default)
+configurations inside a trivial wrapper; both observe the same 1-3 input signals
 (total width 14..48), each with its own trigger / read-back port.  Domain "sync" or "usb".
 
 Workload: the inputs carry an injective function of the cycle number (odd multiplier + salt), so a stored
@@ -16,17 +17,19 @@ Monitors / oracle (reference model written from the statement; no luna code):
   * every sampled `trigger` is classified with the `sampling` output of the same cycle: sampling low -> the
     trigger is accepted (a new capture with trigger cycle T), sampling high -> it must change nothing;
   * `sampling` must be low before the first trigger, rise within 3 cycles of an accepted trigger, and each
-    high run must last depth..depth+2 cycles (exactly `depth` samples; two cycles of slack for registration);
+    high run must last exactly `depth` cycles ("records exactly sample_depth consecutive samples");
   * `complete` must be low before the first capture, low during a sampling run (from its 2nd cycle), high
-    within 3 cycles after the run and then stay high until the next accepted trigger;
-  * content: read-back value of address n == input at cycle T + k - pretrigger + n for every n read.  The
-    documented registration offset is k = 1; k in {0,1,2} is accepted but it must be the *same* k for every
-    capture of both analyzers of the case (so a wrong delay for one particular pre-trigger count or a capture
-    disturbed by a later trigger cannot hide behind the tolerance);
+    at the latest one cycle after the first idle cycle and then stay high until the next accepted trigger;
+  * content: read-back value of address n == input at cycle T + 1 - pretrigger + n for every n read (the samples
+    *following* the trigger, delayed by the pre-trigger count: sample 0 of a pre-trigger-0 analyzer is the input of the
+    cycle after the trigger cycle).  The offset is pinned (an earlier version accepted a uniform offset 0..2);
+    a capture that matches another uniform offset is reported as capture_shifted_early/late;
   * bounded progress: `complete` within depth + pretrigger + 12 cycles of an accepted trigger.
 
 Not judged: the value of `captured_sample` while a capture is running; samples whose source cycle lies before
-the first simulated cycle; read latency (only "<= 3 cycles"); SyncSerialILA / StreamILA / frontends.
+the first simulated cycle; read latency (only "<= 3 cycles"; the statement gives none); the transport wrappers
+SyncSerialILA / AsyncSerialILA / StreamILA and the host-side frontends (the statement is about the analyzer core: trigger,
+capture, complete, read-back by sample number; SPI/UART/stream framing is outside it).
 """
 from rv.sim import Bench
 
@@ -38,17 +41,19 @@ RULE = ("case = 2 analyzers (depth from {1,2,3,4,5,7,8,9,15,16,17,31,32,33,63,64
         ">=1 ignored trigger during a capture and >=2 fully read captures; distinct = hash of configuration + trigger/read schedule")
 REQUIRED_BINS = ["trigger_during_capture", "trigger_on_completion_cycle", "trigger_first_idle_cycle", "trigger_cycle_after_accept",
                  "trigger_held", "recapture_nonpow2_depth", "recapture_pow2_depth", "depth_1", "depth_pow2", "depth_ge_33",
-                 "pretrigger_0", "pretrigger_1", "pretrigger_2", "pretrigger_ge_3", "read_last_sample", "read_first_sample",
+                 "pretrigger_0", "pretrigger_1", "pretrigger_2", "pretrigger_ge_3", "pretrigger_ge_5", "pretrigger_default", "depth_gt_70", "read_address_ge_64", "read_last_sample", "read_first_sample",
                  "capture_abandoned_by_retrigger", "domain_usb", "domain_sync", "three_signals"]
 REQUIRED_EVENTS = ["captures_judged", "samples_compared", "triggers_accepted", "triggers_ignored", "sampling_runs",
                    "complete_rises", "cycles_monitored"]
 ASSUMPTIONS = ["a trigger is 'during capture' iff the analyzer's own `sampling` output is high in that cycle",
-               "registration offset k in {0,1,2} accepted (documented: 1) but must be constant over all captures and both pre-trigger settings of a case",
-               "sampling run length depth..depth+2 accepted; complete within 3 cycles of the end of the run",
+               "sample n = input of cycle T + 1 - pretrigger + n (T = cycle in which the accepted trigger is sampled); default pretrigger = 1 as documented",
+               "sampling run length exactly depth; complete at the latest one cycle after the first idle cycle",
+               "depth > 70: only the corners, the addresses around powers of two and 10-30 random addresses are read back",
                "read-back judged only while the analyzer is idle and complete"]
 
 DEPTHS = [1, 2, 3, 4, 5, 7, 8, 9, 15, 16, 17, 31, 32, 33, 63, 64, 70]
-KSET = (0, 1, 2)
+BIG_DEPTHS = [71, 100, 127, 128, 129, 200, 255, 256, 257, 300]
+KSET = (1,)
 
 
 def _build(cfgs, widths, domain):
@@ -56,7 +61,8 @@ def _build(cfgs, widths, domain):
     from luna.gateware.debug.ila import IntegratedLogicAnalyzer
 
     sigs = [Signal(w, name="in%d" % i) for i, w in enumerate(widths)]
-    ilas = [IntegratedLogicAnalyzer(signals=sigs, sample_depth=d, samples_pretrigger=p, domain=domain) for d, p in cfgs]
+    ilas = [IntegratedLogicAnalyzer(signals=sigs, sample_depth=d, domain=domain, **({} if p is None else {"samples_pretrigger": p}))
+            for d, p in cfgs]
 
     class Wrap(Elaboratable):
         def elaborate(self, platform):
@@ -101,7 +107,7 @@ class Mon:
                 # an ignored trigger in the last sampling cycle = trigger on the completion cycle
                 if (c - 1) in cap["ignored"]:
                     res.bin("trigger_on_completion_cycle")
-            if not (self.D <= L <= self.D + 2):
+            if L != self.D:
                 res.violation("sampling_duration_short" if L < self.D else "sampling_duration_long",
                               "%s run=%d cycles" % (self.ctx(c), L))
         if cap is not None and cap["rise"] is None and not smp and c - cap["T"] >= 3:
@@ -123,7 +129,7 @@ class Mon:
                 elif cap["comp_at"] is not None:
                     res.violation("complete_dropped_without_trigger", self.ctx(c))
                     cap["reported"] = True
-                elif c - cap["end"] >= 3:
+                elif c - cap["end"] >= 2:
                     res.violation("complete_not_raised", self.ctx(c))
                     cap["reported"] = True
             elif cap["end"] is None and cap["rise"] is not None and c - cap["T"] > self.D + self.P + 12 and not cap["reported"]:
@@ -176,6 +182,8 @@ class Mon:
                 res.event("samples_compared")
         if 0 in got:
             res.bin("read_first_sample")
+        if any(a >= 64 for a in got):
+            res.bin("read_address_ge_64")
         if D - 1 in got:
             res.bin("read_last_sample")
         K = self.shared["K"]
@@ -232,6 +240,15 @@ def run_case(rng, tier, res):
     for i in range(2):
         d = rng.choice(DEPTHS + [rng.randint(1, 70), rng.randint(1, 12)])
         cfgs.append((d, pres[i]))
+    r = rng.random()
+    if r < 0.12:
+        cfgs[0] = (rng.choice(BIG_DEPTHS + [rng.randint(71, 300)]), cfgs[0][1])          # sample_depth > 70
+    elif r < 0.24:
+        cfgs[0] = (cfgs[0][0], rng.choice([5, 5, 6, 7, 8, rng.randint(5, 12)]))           # long pre-trigger pipelines
+    elif r < 0.34:
+        cfgs[0] = (cfgs[0][0], None)                                                      # constructor default (documented: 1)
+        if cfgs[1][1] == 1:
+            cfgs[1] = (cfgs[1][0], rng.choice([0, 2, 3]))
     dut, sigs, ilas = _build(cfgs, widths, domain)
     b = Bench(dut, domain=domain, freq=60e6, max_cycles=30000)
     for ila in ilas:
@@ -246,10 +263,12 @@ def run_case(rng, tier, res):
     if nsig == 3:
         res.bin("three_signals")
     for d, p in cfgs:
-        res.bin("depth_1" if d == 1 else "depth_ge_33" if d >= 33 else "depth_mid")
+        res.bin("depth_1" if d == 1 else "depth_gt_70" if d > 70 else "depth_ge_33" if d >= 33 else "depth_mid")
         if d & (d - 1) == 0:
             res.bin("depth_pow2")
-        res.bin("pretrigger_%d" % p if p < 3 else "pretrigger_ge_3")
+        res.bin("pretrigger_default" if p is None else "pretrigger_%d" % p if p < 3 else "pretrigger_ge_5" if p >= 5 else "pretrigger_ge_3")
+    DEFAULT_PRETRIGGER = 1        # documented default of the constructor
+    cfgs = [(d, DEFAULT_PRETRIGGER if p is None else p) for d, p in cfgs]
 
     inp = {}          # cycle -> sampled concatenated input value
     inv = {}          # value -> cycle
@@ -345,7 +364,13 @@ def run_case(rng, tier, res):
             addrs = list(range(D))
             rng.shuffle(addrs)
             r = rng.random()
-            if r < 0.25 and D > 6:
+            if D > 70:
+                # large buffers: the corners, the addresses around every power of two, and a random sample
+                keep = set(addrs[:rng.randint(10, 30)]) | {0, 1, D - 2, D - 1}
+                for pw in (32, 64, 128, 256):
+                    keep |= {a for a in (pw - 1, pw, pw + 1) if a < D}
+                addrs = [a for a in addrs if a in keep]
+            elif r < 0.25 and D > 6:
                 keep = set(addrs[:rng.randint(3, D // 2)]) | {0, D - 1}
                 addrs = [a for a in addrs if a in keep]
             if rng.random() < 0.5 and D > 1:
